@@ -188,7 +188,8 @@ impl StructParser {
 
         let is_public = matches!(field.vis, Visibility::Public(_));
         let is_optional = self.is_optional_type(&field.ty);
-        let rust_type = Self::type_to_string(&field.ty);
+        // std::vec::Vec<models::Item> names the same type as Vec<Item>; `::` must not reach the output
+        let rust_type = TypeResolver::strip_path_qualifiers(&Self::type_to_string(&field.ty));
         let type_structure = type_resolver.parse_type_structure(&rust_type);
         let validator_attributes = self
             .validator_parser
